@@ -508,7 +508,5 @@ Proof.
     unfold HDRREST, BODY. rewrite <- ?app_assoc. reflexivity.
   - cbn [concat app] in Hcat. rewrite concat_repeat_lf in Hcat.
     destruct (h_chomp h); cbn [chomp_opt chomp_tail].
-    + rewrite concat_snoc, Hcat. ccat.
-    + rewrite Hcat. ccat.
-    + rewrite concat_app, concat_snoc, Hcat, concat_repeat_lf. ccat.
+    all: repeat rewrite concat_app; cbn [concat]; rewrite ?concat_repeat_lf, ?app_nil_r, Hcat; ccat.
 Qed.
